@@ -118,6 +118,11 @@ def check(run):
         run.fail("VAR", "formula", sg.where(s.fn.lineno), fq, f"{len(upd)} importance / {len(vup)} variance updates",
                  "importance and variance trackers must each be updated exactly once")
     getters(sg, "OFFSET")
+
+    from .c06 import depends_on
+    depends_on(run, "C10")
+    depends_on(run, "C12", {"TYPESTATE", "NOMUT", "FORMULA", "ZERODIV"})
+    depends_on(run, "C06", {"MERGE", "KEYS", "COUNT"})
     # ---- N ---------------------------------------------------------------------------------------
     sticky = [ev for ev, _ in walk(s.events) if isinstance(ev, ir.Store) and ev.field == "n_inner_samples"]
     run.check(not sticky, "N", "override", sg.where(sticky[0].line if sticky else s.fn.lineno), fq,
